@@ -74,14 +74,16 @@ let r_ev = function
   | EvClientRoutes (c, h) -> "ClientRoutes(" ^ lst hexs c ^ "," ^ lst hexs h ^ ")"
 let r_cell = opt hexs
 let sort_kv f l = List.sort (fun (a, _) (b, _) -> compare a b) (List.map (fun (k, v) -> (hexs k, f v)) l)
+let r_rows (r : rows_result) (cc : n) : string =
+  Printf.sprintf "Rows(%s,%s,%s,%s,%s,%s)" (opt hexs r.rr_hdr.rh_paging) (opt hexs r.rr_meta_id) (dec_of_n cc)
+    (lst r_col r.rr_cols) (dec_of_n r.rr_rows_count) (lst (lst r_cell) r.rr_rows)
 let r_res = function
   | ResVoid -> "Void"
   | ResSetKeyspace ks -> "SetKeyspace(" ^ hexs ks ^ ")"
   | ResSchemaChange sc -> "SchemaChange(" ^ r_sc sc ^ ")"
   | ResRows r ->
     let cc = if r.rr_hdr.rh_no_metadata then N0 else r.rr_hdr.rh_col_count in
-    Printf.sprintf "Rows(%s,%s,%s,%s,%s,%s)" (opt hexs r.rr_hdr.rh_paging) (opt hexs r.rr_meta_id) (dec_of_n cc)
-      (lst r_col r.rr_cols) (dec_of_n r.rr_rows_count) (lst (lst r_cell) r.rr_rows)
+    r_rows r cc
   | ResPrepared p ->
     Printf.sprintf "Prepared(%s,%s,%s,%s,%s,%s,%s,%s)" (hexs p.p_id) (opt hexs p.p_result_metadata_id) (dec_of_z p.p_flags)
       (dec_of_n p.p_col_count) (lst (fun (i, s) -> "(" ^ dec_of_n i ^ "," ^ dec_of_n s ^ ")") p.p_pk) (lst r_col p.p_cols)
@@ -152,6 +154,28 @@ let verdict case impl =
     (match status with
      | ("abort" | "timeout" | "panic") :: _ ->
        "viol crash=" ^ String.concat "_" status ^ " len=" ^ string_of_int len
+     | _ when kind.[0] = 'P' ->
+       (* a PREPARED frame followed by a Rows frame decoded against the cached result metadata *)
+       let bound = int_of_n (alloc_bound (n_of_i len)) in
+       if maxreq > bound then Printf.sprintf "viol alloc=%d bound=%d len=%d" maxreq bound len else
+       let model = (match decode_pair parse_custom ft stream with
+           | None -> "pair none"
+           | Some (Err (st, e)) -> "err " ^ stage_name st ^ " " ^ err_name e
+           | Some (Ok (r, cc)) ->
+             let tv = if r.rr_cols = [] then "-" else
+                 (match typed_rows_first_error r.rr_cols r.rr_rows N0 with None -> "ok" | Some i -> "err@" ^ dec_of_n i) in
+             "ok " ^ r_rows r cc ^ " tv=" ^ tv) in
+       let impl_s = String.concat " " status in
+       if impl_s = model then "ok"
+       else if String.length model >= 14 && String.sub model (String.length model - 16) 16 = "MODEL-UNMODELLED" then "ok unmodelled"
+       else begin
+         let k = ref 0 in
+         let la = String.length impl_s and lb = String.length model in
+         while !k < la && !k < lb && impl_s.[!k] = model.[!k] do incr k done;
+         let cut s = if String.length s > 300 then String.sub s 0 300 ^ "..." else s in
+         let from s = let st = max 0 (!k - 40) in cut (String.sub s st (String.length s - st)) in
+         "diff at=" ^ string_of_int !k ^ " impl=.." ^ from impl_s ^ " model=.." ^ from model
+       end
      | _ ->
        (* C08_alloc: R = 1 without a codec; 255 for LZ4 (the decoder refuses larger claims since
           d6bbe9c); a Snappy body sizes its own buffer inside the snap crate (residual): not judged *)
@@ -383,6 +407,34 @@ let gen_frame (ft : features) (v2 : bool) (deep : int) : dframe =
   let body = enc_body ft f0 in
   { f0 with d_header = { h0 with h_length = nb (List.length body) } }
 
+(* a PREPARED response and a Rows response without metadata whose cells fit the prepared result columns *)
+let gen_pair (ft : features) : n list =
+  let nrc = below 4 in
+  let global = chance 1 2 && nrc > 0 in
+  let rcols = gen_cols global nrc in
+  let nomd = chance 1 10 in
+  let p = { p_id = gen_bytes 12; p_result_metadata_id = (if ft.ft_metadata_id then Some (gen_bytes 8) else None);
+            p_flags = z_of_i 0; p_col_count = N0; p_pk = []; p_cols = [];
+            pr_global = global; pr_no_metadata = nomd; pr_col_count = nb nrc; pr_cols = (if nomd then [] else rcols) } in
+  let mk resp =
+    let h0 = { h_version = nb 132; h_flags = N0; h_stream = z_of_i (below 1000); h_opcode = nb 8; h_length = N0 } in
+    let f0 = { d_header = h0; d_ext = { x_trace = None; x_warnings = []; x_payload = None }; d_resp = resp } in
+    let body = enc_body ft f0 in
+    encode_frame (fun b -> b) ft { f0 with d_header = { h0 with h_length = nb (List.length body) } } in
+  let nrows = below 4 in
+  let with_md = chance 1 5 in
+  let rows = List.init nrows (fun _ -> List.map (fun c -> gen_cell_for c.cs_type) (if nomd then [] else rcols)) in
+  let r = if with_md then
+      (let cols = gen_cols false 1 in
+       { rr_hdr = { rh_col_count = nb 1; rh_global = false; rh_no_metadata = false; rh_metadata_changed = false; rh_paging = None };
+         rr_meta_id = None; rr_cols = cols; rr_rows_count = nb nrows;
+         rr_rows = List.init nrows (fun _ -> List.map (fun c -> gen_cell_for c.cs_type) cols) })
+    else
+      { rr_hdr = { rh_col_count = nb (below 5); rh_global = false; rh_no_metadata = true; rh_metadata_changed = false;
+                   rh_paging = (if chance 1 3 then Some (gen_bytes 8) else None) };
+        rr_meta_id = None; rr_cols = []; rr_rows_count = nb nrows; rr_rows = rows } in
+  mk (RResult (ResPrepared p)) @ mk (RResult (ResRows r))
+
 let gen_main seed count =
   rng := (seed * 2862933555777941757 + 3037000493) land max_int;
   if !rng = 0 then rng := 1;
@@ -390,6 +442,11 @@ let gen_main seed count =
     let ft = { ft_rate_limit = (if chance 1 2 then Some (z_of_i (0x4321 + below 3)) else None); ft_metadata_id = chance 1 2 } in
     let v2 = chance 2 3 in
     (* a few frames with deeply nested column types: 10, 120, 128 (the limit), 129, 1000, 100000 *)
+    if i mod 12 = 7 then
+      Printf.printf "P rl:%s,mid:%s 2 %s\n"
+        (match ft.ft_rate_limit with None -> "-" | Some z -> hex_of_z z) (b01 ft.ft_metadata_id)
+        (let s = hexs (gen_pair ft) in String.sub s 1 (String.length s - 1))
+    else
     let deep = if i mod 97 = 5 then pick [10; 100; 127; 128; 129; 1000] else if i mod 997 = 11 then 100000 else 0 in
     let f = gen_frame ft v2 deep in
     let wire = encode_frame (fun b -> b) ft f in
